@@ -15,11 +15,11 @@ ID = 'C16'
 TITLE = '!append / !extend / !prev'
 RULE = ('base config (nested mappings with string and integer keys, lists, lists of lists) and 1-3 later stages each holding 1-3 operators at pairwise unrelated paths '
         '(top level, nested in mappings, !prev sources also inside lists; !append/!extend targets inside lists only in a dedicated class), '
-        'targets existing / missing / non-list, !prev destinations fresh or holding a scalar, plus untouched or plainly overridden sibling '
+        'targets existing / missing / non-list, !prev destinations fresh or holding a scalar / a mapping, plus untouched or plainly overridden sibling '
         'content; non-trivial = an operator at depth >=1 or addressing into a list, or >=2 operators in the history; distinct = hash of the case')
 BUDGET = {'quick': (4, 600), 'thorough': (16, 10000)}
 ASSUMPTIONS = ['!append in the very first document is not generated (statement: fails; fixture: plain list)',
-               '!prev destinations hold nothing or a scalar (a mapping moved onto a mapping merges key-wise by the ordinary rules)']
+               'a subtree moved by !prev onto a destination that holds a mapping merges with it by the ordinary rules (C02 fold)']
 
 KEYS = ['a', 'b', 'c', 'l', '_p', 1, 7, 'v1.0', 'my-key', 'extend', 'extend']       # integer keys and keys that are not plain names too (the latter cannot be spelled in the path text of a !prev)
 LEAF = st.one_of(st.integers(0, 9), st.sampled_from(['s', 't', 2.5, None, True, 0, False, '', 0.0]))
@@ -132,8 +132,12 @@ def _stage(draw, cur):
                 src = ('nope',)
             else:
                 src = spellable[draw(st.integers(0, len(spellable) - 1))]
-            dmode = draw(st.sampled_from(['fresh', 'fresh', 'scalar']))
+            dmode = draw(st.sampled_from(['fresh', 'fresh', 'scalar', 'map']))
             cand = [p for p in paths if not isinstance(_get(cur, p), (dict, list)) and not through_list(cur, p)] if dmode == 'scalar' else []
+            if dmode == 'map' and src != ('nope',):
+                # the destination holds a mapping already: what is moved there merges with it by the ordinary rules (key-wise for a
+                # mapping, also one that has been an element of a list), every other entry of the destination keeps its value
+                cand = [p for p in paths if isinstance(_get(cur, p), dict) and _get(cur, p) and not through_list(cur, p) and not _related(p, src)]
             if cand:
                 dst = cand[draw(st.integers(0, len(cand) - 1))]
             else:
@@ -273,6 +277,16 @@ def _case(draw):
     base = draw(_plain())
     cur = base
     stages = []
+    if draw(st.integers(0, 5)) == 0:
+        # a mapping that is an element of a list, and a mapping elsewhere with the same keys and more below them: moved onto it,
+        # the element merges key-wise at every depth, like any mapping does - what the destination holds besides stays
+        elem = {'x': {'u': draw(LEAF)}, 'w': draw(LEAF)}
+        base = dict(base)
+        base['tl'] = [elem] + [draw(LEAF) for _ in range(draw(st.integers(0, 2)))]
+        base['tw'] = {'x': {'v': draw(LEAF), 'u': draw(LEAF)}, 'y': draw(LEAF)}
+        cur = base
+        stages.append({'ops': [{'op': 'prev', 'path': ['tw'], 'src': ['tl', 0], 'inlist': True}], 'sib': []})
+        cur = apply_model(cur, stages[0])
     for _ in range(draw(st.sampled_from([1, 1, 2, 3]))):
         s = draw(_stage(cur))
         stages.append(s)
